@@ -86,6 +86,15 @@ def is_atomic_vector(value: Any) -> bool:
     return isinstance(value, (VectorSymbol, AppliedVectorFunction))
 
 
+def _is_irreducible_vector(value: Any) -> bool:
+    """
+    Checks if `value` cannot be evaluated further as an operand of a vector product, i.e. it is
+    an atomic vector or an (unevaluated) derivative of a vector expression.
+    """
+
+    return is_atomic_vector(value) or isinstance(value, VectorDerivative)
+
+
 @cacheit
 def split_factor(value: Any) -> tuple[Expr, Expr]:
     """
@@ -454,7 +463,7 @@ class VectorDot(Expr):  # type: ignore[misc]
             # The dot product is commutative, i.e. the sign of the permutation of the symbols doesn't
             # matter
             for (v, w), factor in tuple_to_factor.items():
-                if is_atomic_vector(v) and is_atomic_vector(w):
+                if _is_irreducible_vector(v) and _is_irreducible_vector(w):
                     dot = cls(v, w, evaluate=False)
                 else:
                     dot = cls(v, w)
@@ -565,7 +574,7 @@ class VectorCross(VectorExpr):
             for vectors, factor in tuple_to_factor.items():
                 v, w = vectors
 
-                if is_atomic_vector(v) and is_atomic_vector(w):
+                if _is_irreducible_vector(v) and _is_irreducible_vector(w):
                     cross = cls(v, w, evaluate=False)
                 else:
                     cross = cls(v, w)
@@ -689,7 +698,7 @@ class VectorMixedProduct(Expr):  # type: ignore[misc]
                 continue
 
             for vectors, factor in tuple_to_factor.items():
-                if all(is_atomic_vector(vector) for vector in vectors):
+                if all(_is_irreducible_vector(vector) for vector in vectors):
                     mixed = cls(*vectors, evaluate=False)
                 else:
                     u, v, w = vectors
@@ -713,7 +722,9 @@ class VectorMixedProduct(Expr):  # type: ignore[misc]
             return SymDerivative(self, symbol, evaluate=False)
 
         a, b, c = self.args
-        return VectorDot(a, VectorCross(b, c)).diff(symbol)
+        # NOTE: the evaluated form is `self` again, which would recurse indefinitely
+        cross = VectorCross(b, c, evaluate=False)
+        return VectorDot(a, cross, evaluate=False).diff(symbol)
 
 
 class AppliedVectorFunction(sym_fn.Application, VectorExpr):  # type: ignore[misc]
